@@ -117,13 +117,14 @@ pub fn run(tier: Tier) -> i32 {
     let report = Report::new("C16", tier, "exploration");
     let lsk = leader_key();
     let slots: Vec<u64> = tier.pick(vec![0, 1, 4, 5, 8], (0..=8).collect());
-    let slices: Vec<usize> = vec![0, 1, 2];
+    // low indices plus the region around 2^9 and the maximum (cache keys / seeds must not alias)
+    let slices: Vec<usize> = vec![0, 1, 2, 511, 512, 513, 1023];
     // shreds for every (slot, slice)
     let mut shreds: BTreeMap<(u64, usize), Vec<Shred>> = BTreeMap::new();
     let mut sh = RegularShredder::default();
     for s in &slots {
         for sl in &slices {
-            let slice = mk_slice(*s + 1, *sl, *sl == 2, *sl == 0, 100);
+            let slice = mk_slice(*s + 1, *sl, *sl == 1023, *sl == 0, 100);
             let mut slice = slice;
             slice.slot = Slot::new(*s);
             let out = sh.shred(&slice, &lsk).unwrap();
